@@ -28,7 +28,7 @@ func init() {
 	})
 	register(&Rule{
 		ID:    "C02.matrix",
-		Props: []string{"C02"},
+		Props: []string{"C02", "C15"},
 		Doc:   "matrix.index is 3*locA+locB with Interior/Boundary/Exterior = 0/1/2; transpose writes (locB,locA) <- (locA,locB); Relate's empty-operand branch (interpreted over the models of emptiness, dimension and boundary-emptiness) yields the closed-form matrix and transposes iff the first operand is the non-empty one",
 		Floor: 5,
 		Run:   runC02Matrix,
